@@ -18,7 +18,9 @@
 //!   reload <n> (<latestId> <unblockedId> <holder> <cp> <revokedCp> <in-flight ids> <monId> <monHolder> <monCp> <monMinSecret>)*n
 //!     -> err | ok (closed:<replay>:<closeId> | resumed:<replay>)*n
 //! plus, on the reference run of every scenario, the run model's state tracked against the live node:
-//!   init/upd/release/complete/notify <chan> ..., state <chan> -> <latest> <watch> <in-flight> <chan nums> <monitor nums>
+//!   init/upd/jump/release/complete/notify <chan> ..., state <chan> -> <latest> <watch> <in-flight> <chan nums> <monitor nums>
+//! After the restart(s) the application retries the claim / fail-back decisions it took before the crash (as
+//! the claim_funds documentation requires), peers are reconnected and everything is delivered until quiet.
 //!
 //! Impl-side oracles (independent of the Lean model), admissible worlds only:
 //!   * the read never fails; no panic (this includes TestChannelSigner's revoked-state policy checks);
@@ -28,7 +30,10 @@
 //!     monitors or the monitors as they are after the replay) gives the same outcome;
 //!   * after reconnect + settle: no payment is both sent and failed; when no channel was closed every HTLC
 //!     is resolved, every payment has a terminal event at its sender, node 1's Σ value_to_self did not
-//!     decrease (net of what it paid / was paid itself), and no protocol error was emitted.
+//!     decrease (net of what it paid / was paid itself), no protocol error was emitted, and every channel of t with
+//!     nothing blocked or in flight is in sync with its monitor (same update id and commitment numbers).
+//! Known findings (known_findings.txt) are recognised by an implementation-side pattern on the world and tagged
+//! KF-C10-1 / KF-C10-2 / KF-C10-3; the same symptom outside the pattern is reported untagged.
 use ldk_verif_harness::common::*;
 use ldk_verif_harness::sim::*;
 use lightning::chain::ChannelMonitorUpdateStatus;
@@ -309,10 +314,12 @@ fn main() {
 			}
 			if any_closed { n_closed += 1; }
 			// second crash during recovery
+			let mut mon2_ids: Option<Vec<u64>> = None;
 			if (w.p + w.q) % 2 == 0 {
 				n_second += 1;
 				let same_mons = (w.p + w.q) % 4 == 0;
 				let mons2: Vec<Vec<u8>> = if same_mons { mons.clone() } else { my.iter().map(|(_, _, cid)| net.nodes[t].chain_monitor.chain_monitor.get_monitor(*cid).unwrap().encode()).collect() };
+				if !same_mons { mon2_ids = Some(my.iter().map(|(_, _, cid)| net.nodes[t].chain_monitor.chain_monitor.get_monitor(*cid).unwrap().get_latest_update_id()).collect()); }
 				let seen2 = match guarded(AssertUnwindSafe(|| observe_restart(&mut net, t, mgr, &mons2, &unblocked))) { Ok(s) => s, Err(e) => Seen::Err(format!("PANIC {}", e)) };
 				match &seen2 {
 					Seen::Err(e) => { rec.oracle_fail(format!("{}: SECOND restart ({}) failed: {}", tag, if same_mons { "same monitors" } else { "monitors after replay" }, e.chars().take(160).collect::<String>())); std::mem::forget(net); continue; },
@@ -359,7 +366,7 @@ fn main() {
 			}
 			// KF-C10-1 pattern: the manager was written while monitor updates were blocked and none was in flight, and the
 			// monitor on disk already contains every one of those blocked updates
-			let kf1 = (0..my.len()).any(|k| { let c = qv[k].chan.unwrap(); c[5] > 0 && qv[k].inflight.is_empty() && mv[k].mon_id >= c[0] && !chans[k].0 });
+			let kf1 = (0..my.len()).any(|k| { let c = qv[k].chan.unwrap(); c[5] > 0 && qv[k].inflight.is_empty() && !chans[k].0 && (mv[k].mon_id >= c[0] || mon2_ids.as_ref().map(|m| m[k] >= c[0]).unwrap_or(false)) });
 			let mut fails: Vec<String> = vec![];
 			// no payment both sent and failed
 			let mut sent: BTreeSet<[u8; 32]> = BTreeSet::new(); let mut failed: BTreeSet<[u8; 32]> = BTreeSet::new(); let mut claimed1: BTreeMap<[u8; 32], u64> = BTreeMap::new();
